@@ -460,7 +460,7 @@ func main() {
 	repo, outPath := os.Args[1], os.Args[2]
 	files := map[string]*ast.File{}
 	pkgFuncs := map[string]bool{}
-	for _, name := range []string{"execute.go", "plan.go", "http.go", "cache.go", "gateway.go", "middlewares.go"} {
+	for _, name := range []string{"execute.go", "plan.go", "http.go", "cache.go", "gateway.go", "middlewares.go", "merge.go"} {
 		f, err := parser.ParseFile(fset, filepath.Join(repo, name), nil, 0)
 		if err != nil {
 			fmt.Fprintln(os.Stderr, "parse error:", err)
@@ -481,6 +481,16 @@ func main() {
 		{"gateway.go", "Gateway", "Execute", false},
 		{"execute.go", "", "executorExtractValue", false}, {"execute.go", "", "executorInsertObject", false},
 		{"execute.go", "", "executorFindInsertionPoints", false}, {"middlewares.go", "", "scrubInsertionIDs", false},
+		// the comparisons mergeSchemas makes per kind (C03, C09, C10), conditions included
+		{"merge.go", "", "mergeInterfaces", true}, {"merge.go", "", "mergeObjectTypes", true}, {"merge.go", "", "mergeInputObjects", true},
+		{"merge.go", "", "mergeFieldList", true}, {"merge.go", "", "mergeFields", true}, {"merge.go", "", "mergeEnums", true},
+		{"merge.go", "", "mergeEnumValues", true}, {"merge.go", "", "mergeScalars", true}, {"merge.go", "", "mergeUnions", true},
+		{"merge.go", "", "mergeDirectives", true}, {"merge.go", "", "mergeDirectiveLocations", true},
+		{"merge.go", "", "mergeArgumentDefinitionList", true}, {"merge.go", "", "mergeDirectiveListsEqual", true},
+		{"merge.go", "", "mergeDirectiveEqual", true}, {"merge.go", "", "mergeInterfaceNames", true},
+		{"merge.go", "", "mergeStringSliceEquivalent", true}, {"merge.go", "", "mergeTypesEqual", true}, {"merge.go", "", "mergeValuesEqual", true},
+		{"merge.go", "", "mergeArgumentListEqual", true}, {"merge.go", "", "mergeArgumentsEqual", true}, {"merge.go", "", "mergeArgumentDefinitions", true},
+		{"merge.go", "", "mergeSchemas", true},
 	}
 	var out strings.Builder
 	out.WriteString("(* GENERATED by /verif/translator from the working tree of nautilus/gateway; do not edit. *)\n")
